@@ -120,12 +120,18 @@ def handler : Handler := fun op inp out =>
             | none => false)
           | _ => true)
         | none => true
+      -- monitor: the premise `symbolExact` of the conditional theorems (gauss_bonnet_conditional,
+      -- isSpherical_iff_spec_conditional) holds for the model on this symbol, both representations
+      let mon : Bool := match symOf s .partialSym, symOf s .simpleSym with
+        | some y, some y' => symbolExact y && symbolExact y'
+        | _, _ => false
       if panicked then (m, fail "no-panic-on-complete-2d-symbol") else
       match run (do let a ← parseAns; let b ← parseAns; pure (a, b)) out with
       | some (a, b) =>
         (m, check (
           [("input-is-a-complete-2d-symbol", s.dim == 2 && g.wellFormed),
-           ("driver-parser-roundtrip", rt)] ++
+           ("driver-parser-roundtrip", rt),
+           ("monitor-symbolExact-premise-of-conditional-gauss-bonnet-holds-for-the-model", mon)] ++
           geoClauses g "partial" a ++ geoClauses g "simple" b ++
           [("representations-agree",
             Fr.eqv a.k b.k && a.e == b.e && a.h == b.h && a.s == b.s && a.str == b.str)]))
